@@ -813,6 +813,582 @@ theorem strncat_spec (m : Mem) (s1 s2 : Nat) (a c : List Byte) (n fuel : Nat) (h
   exact ⟨holds_of_sameOutside (cstr_prefix_holds (r := []) (by simpa using ha)).1 ho (by omega), hh⟩
 
 
+/-! ### TOTALITY (round 3).  The theorems above are stated per case (found / absent, equal / first
+difference ...).  These say that the cases are exhaustive: on EVERY content of the mapped objects
+the call returns (no fault) and the result is characterised by an `iff`. -/
+
+/-- memcmp is TOTAL on two mapped n-byte objects (never a fault, whatever the contents), its result
+is 0 exactly when the two objects are equal, and otherwise it is the difference of the first
+differing pair read as `unsigned char` -/
+theorem memcmp_total (m : Mem) (d s : Nat) (l1 l2 : List Byte) (hlen : l1.length = l2.length)
+    (h1 : Holds m d l1) (h2 : Holds m s l2) :
+    ∃ r, memcmp m d s l1.length = some r ∧ (r = 0 ↔ l1 = l2) ∧
+      (l1 ≠ l2 → ∃ p x y r1 r2, l1 = p ++ x :: r1 ∧ l2 = p ++ y :: r2 ∧ x ≠ y ∧ r = ucInt x - ucInt y) := by
+  rcases first_diff l1 l2 hlen with e | ⟨p, x, y, r1, r2, e1, e2, hxy⟩
+  · subst e
+    exact ⟨0, memcmp_equal m d s l1 h1 h2, by simp, fun h => absurd rfl h⟩
+  · have g1 : Holds m d (p ++ [x]) := by
+      rw [e1, show p ++ x :: r1 = (p ++ [x]) ++ r1 by simp, holds_append] at h1; exact h1.1
+    have g2 : Holds m s (p ++ [y]) := by
+      rw [e2, show p ++ y :: r2 = (p ++ [y]) ++ r2 by simp, holds_append] at h2; exact h2.1
+    have hr := memcmp_first_difference m d s p x y l1.length g1 g2 hxy (by rw [e1]; simp)
+    have hne : l1 ≠ l2 := by
+      rw [e1, e2]; intro h
+      have := List.append_cancel_left h
+      exact hxy (List.cons.inj this).1
+    have hnz : ucInt x - ucInt y ≠ 0 := fun h0 => hxy ((ucInt_sub_sign x y).2.mp h0)
+    exact ⟨_, hr, ⟨fun h0 => absurd h0 hnz, fun h => absurd h hne⟩, fun _ => ⟨p, x, y, r1, r2, e1, e2, hxy, rfl⟩⟩
+
+/-- strcmp is TOTAL on two C strings: no fault, 0 exactly for equal strings, otherwise the difference
+of the first differing pair of characters (the terminator counts) as `unsigned char` -/
+theorem strcmp_total (m : Mem) (s1 s2 : Nat) (l1 l2 : List Byte) (fuel : Nat) (h1 : CStr m s1 l1) (h2 : CStr m s2 l2)
+    (hf : l1.length < fuel) :
+    ∃ r, strcmp m s1 s2 fuel = some r ∧ (r = 0 ↔ l1 = l2) := by
+  rcases first_diff_cstr l1 l2 h1.2 h2.2 with e | ⟨p, x, y, r1, r2, e1, e2, hxy, hp⟩
+  · subst e
+    exact ⟨0, strcmp_equal m s1 s2 l1 fuel h1 h2 hf, by simp⟩
+  · have g1 : Holds m s1 (p ++ [x]) := by
+      have := h1.1; rw [e1, show p ++ x :: r1 = (p ++ [x]) ++ r1 by simp, holds_append] at this; exact this.1
+    have g2 : Holds m s2 (p ++ [y]) := by
+      have := h2.1; rw [e2, show p ++ y :: r2 = (p ++ [y]) ++ r2 by simp, holds_append] at this; exact this.1
+    have hpl : p.length ≤ l1.length := by
+      have := congrArg List.length e1; simp at this; omega
+    have hr := strcmp_first_difference m s1 s2 p x y fuel g1 g2 hp hxy (by omega)
+    have hne : l1 ≠ l2 := by
+      intro h; subst h
+      rw [e1] at e2
+      exact hxy (List.cons.inj (List.append_cancel_left e2)).1
+    have hnz : ucInt x - ucInt y ≠ 0 := fun h0 => hxy ((ucInt_sub_sign x y).2.mp h0)
+    exact ⟨_, hr, fun h0 => absurd h0 hnz, fun h => absurd h hne⟩
+/-- memchr is TOTAL on a mapped n-byte object: NULL exactly when the byte does not occur, otherwise
+the pointer to its FIRST occurrence -/
+theorem memchr_total (m : Mem) (s : Nat) (c : Int) (l : List Byte) (hl : Holds m s l) :
+    ∃ r, memchr m s c l.length = some r ∧ (r = none ↔ toChar c ∉ l) ∧
+      (toChar c ∈ l → ∃ p rest, l = p ++ toChar c :: rest ∧ toChar c ∉ p ∧ r = some (s + p.length)) := by
+  by_cases hc : toChar c ∈ l
+  · obtain ⟨p, rest, e, hp⟩ := first_split hc
+    have hr : memchr m s c l.length = some (some (s + p.length)) := by
+      have := memchr_found m s c p rest (by rw [← e]; exact hl) hp
+      rwa [← e] at this
+    exact ⟨_, hr, ⟨fun h => by simp at h, fun h => absurd hc h⟩, fun _ => ⟨p, rest, e, hp, rfl⟩⟩
+  · exact ⟨none, memchr_absent m s c l hl hc, ⟨fun _ => hc, fun _ => rfl⟩, fun h => absurd h hc⟩
+
+/-- strnlen is TOTAL on a mapped array of maxlen bytes with ANY contents: the index of the first
+NUL, or maxlen when there is none -/
+theorem strnlen_total (m : Mem) (s : Nat) (l : List Byte) (h : Holds m s l) :
+    ∃ k, strnlen m s l.length = some k ∧ k ≤ l.length ∧ 0#8 ∉ l.take k ∧ (k < l.length → l[k]? = some 0#8) := by
+  by_cases h0 : 0#8 ∈ l
+  · obtain ⟨p, rest, e, hp⟩ := first_split h0
+    have hc : CStr m s p := by
+      refine ⟨?_, hp⟩
+      rw [e, show p ++ 0#8 :: rest = (p ++ [0#8]) ++ rest by simp, holds_append] at h; exact h.1
+    have hlen : l.length = p.length + 1 + rest.length := by rw [e]; simp; omega
+    refine ⟨p.length, ?_, by omega, ?_, fun _ => ?_⟩
+    · rw [strnlen_spec m s p l.length hc, Nat.min_eq_left (by omega)]
+    · rw [e]; simpa using hp
+    · rw [e]; simp
+  · exact ⟨l.length, strnlen_unterminated m s l h h0, Nat.le_refl _, by simpa using h0, fun hk => absurd hk (Nat.lt_irrefl _)⟩
+/-- strchr is TOTAL on a C string, for every `int` ch: the terminator when `(char)ch == 0`, the
+FIRST occurrence when the character occurs, NULL otherwise -/
+theorem strchr_total (m : Mem) (s : Nat) (ch : Int) (l : List Byte) (fuel : Nat) (h : CStr m s l)
+    (hf : l.length < fuel) :
+    ∃ r, strchr m s ch fuel = some r ∧
+      (toChar ch = 0#8 → r = some (s + l.length)) ∧
+      (toChar ch ≠ 0#8 → toChar ch ∉ l → r = none) ∧
+      (toChar ch ∈ l → ∃ p rest, l = p ++ toChar ch :: rest ∧ toChar ch ∉ p ∧ r = some (s + p.length)) := by
+  by_cases hz : toChar ch = 0#8
+  · refine ⟨_, strchr_terminator m s ch l fuel h hz hf, fun _ => rfl, fun h' => absurd hz h', fun hin => ?_⟩
+    exact absurd (hz ▸ hin) h.2
+  · by_cases hin : toChar ch ∈ l
+    · obtain ⟨p, rest, e, hp⟩ := first_split hin
+      have g : Holds m s (p ++ [toChar ch]) := by
+        have := h.1
+        rw [e, show p ++ toChar ch :: rest ++ [0#8] = (p ++ [toChar ch]) ++ (rest ++ [0#8]) by simp, holds_append] at this
+        exact this.1
+      have h0 : 0#8 ∉ p := fun e0 => h.2 (by rw [e]; exact List.mem_append_left _ e0)
+      have hlen : p.length < fuel := by
+        have := congrArg List.length e; simp at this; omega
+      exact ⟨_, strchr_found m s ch p fuel g h0 hp hlen, fun h' => absurd h' hz, fun _ hn => absurd hin hn,
+        fun _ => ⟨p, rest, e, hp, rfl⟩⟩
+    · exact ⟨_, strchr_absent m s ch l fuel h hin hz hf, fun h' => absurd h' hz, fun _ _ => rfl, fun h' => absurd h' hin⟩
+
+/-- memrchr is TOTAL on a mapped n-byte object: NULL exactly when the byte does not occur, otherwise
+the pointer to its LAST occurrence -/
+theorem memrchr_total (m : Mem) (s : Nat) (c : Int) (l : List Byte) (hl : Holds m s l) :
+    ∃ r, memrchr m s c l.length = some r ∧ (r = none ↔ toChar c ∉ l) ∧
+      (toChar c ∈ l → ∃ p rest, l = p ++ toChar c :: rest ∧ toChar c ∉ rest ∧ r = some (s + p.length)) := by
+  by_cases hc : toChar c ∈ l
+  · obtain ⟨p, rest, e, hp⟩ := last_split hc
+    have hr : memrchr m s c l.length = some (some (s + p.length)) := by
+      have := memrchr_found m s c p rest (by rw [← e]; exact hl) hp
+      rwa [← e] at this
+    exact ⟨_, hr, ⟨fun h => by simp at h, fun h => absurd hc h⟩, fun _ => ⟨p, rest, e, hp, rfl⟩⟩
+  · exact ⟨none, memrchr_absent m s c l hl hc, ⟨fun _ => hc, fun _ => rfl⟩, fun h => absurd h hc⟩
+
+/-- strrchr is TOTAL on a C string, for every `int` ch: the terminator when `(char)ch == 0`, the LAST
+occurrence when the character occurs, NULL otherwise -/
+theorem strrchr_total (m : Mem) (s : Nat) (ch : Int) (l : List Byte) (fuel : Nat) (h : CStr m s l)
+    (hf : l.length + 1 < fuel) :
+    ∃ r, strrchr m s ch fuel = some r ∧
+      (toChar ch = 0#8 → r = some (s + l.length)) ∧
+      (toChar ch ≠ 0#8 → toChar ch ∉ l → r = none) ∧
+      (toChar ch ∈ l → ∃ p rest, l = p ++ toChar ch :: rest ∧ toChar ch ∉ rest ∧ r = some (s + p.length)) := by
+  by_cases hz : toChar ch = 0#8
+  · refine ⟨_, strrchr_terminator m s ch l fuel h hz (by omega), fun _ => rfl, fun h' => absurd hz h', fun hin => ?_⟩
+    exact absurd (hz ▸ hin) h.2
+  · by_cases hin : toChar ch ∈ l
+    · obtain ⟨p, rest, e, hp⟩ := last_split hin
+      have := strrchr_found m s ch p rest fuel (by rw [← e]; exact h) hp (by rw [← e]; exact hf)
+      exact ⟨_, this, fun h' => absurd h' hz, fun _ hn => absurd hin hn, fun _ => ⟨p, rest, e, hp, rfl⟩⟩
+    · exact ⟨_, strrchr_absent m s ch l fuel h hin hz (by omega), fun h' => absurd h' hz, fun _ _ => rfl,
+        fun h' => absurd h' hin⟩
+
+/-- strlen is TOTAL in the sense of its definition: for ANY mapped byte array that contains a NUL the
+result is the index of the first one, and nothing behind it is read -/
+theorem strlen_first_nul (m : Mem) (s : Nat) (l : List Byte) (fuel : Nat) (h : Holds m s l) (h0 : 0#8 ∈ l)
+    (hf : l.length < fuel) :
+    ∃ p rest, l = p ++ 0#8 :: rest ∧ 0#8 ∉ p ∧ strlen m s fuel = some p.length := by
+  obtain ⟨p, rest, e, hp⟩ := first_split h0
+  refine ⟨p, rest, e, hp, ?_⟩
+  have hc : CStr m s p := by
+    refine ⟨?_, hp⟩
+    rw [e, show p ++ 0#8 :: rest = (p ++ [0#8]) ++ rest by simp, holds_append] at h; exact h.1
+  have : p.length < fuel := by have := congrArg List.length e; simp at this; omega
+  exact strlen_spec m s p fuel hc this
+
+/-- strncmp is TOTAL on two C strings for EVERY n (0, smaller, equal, larger than the lengths, SIZE_MAX):
+no fault, and the result is 0 exactly when the first n characters - the terminator counts as a
+character, nothing behind it is compared - agree -/
+theorem strncmp_total (m : Mem) (s1 s2 : Nat) (l1 l2 : List Byte) (n : Nat) (h1 : CStr m s1 l1) (h2 : CStr m s2 l2) :
+    ∃ r, strncmp m s1 s2 n = some r ∧ (r = 0 ↔ (l1 ++ [0#8]).take n = (l2 ++ [0#8]).take n) := by
+  rcases first_diff_cstr l1 l2 h1.2 h2.2 with e | ⟨p, x, y, r1, r2, e1, e2, hxy, hp⟩
+  · subst e
+    exact ⟨0, strncmp_equal m s1 s2 l1 n h1 h2, by simp⟩
+  · have g1 := h1.1; have g2 := h2.1
+    rw [e1] at g1; rw [e2] at g2
+    rw [e1, e2]
+    by_cases hn : p.length < n
+    · have a1 : Holds m s1 (p ++ [x]) := by
+        rw [show p ++ x :: r1 = (p ++ [x]) ++ r1 by simp, holds_append] at g1; exact g1.1
+      have a2 : Holds m s2 (p ++ [y]) := by
+        rw [show p ++ y :: r2 = (p ++ [y]) ++ r2 by simp, holds_append] at g2; exact g2.1
+      refine ⟨_, strncmp_first_difference m s1 s2 p x y n a1 a2 hp hxy hn, ?_⟩
+      have hnz : ucInt x - ucInt y ≠ 0 := fun h0 => hxy ((ucInt_sub_sign x y).2.mp h0)
+      constructor
+      · intro h0; exact absurd h0 hnz
+      · intro ht
+        have t1 : (p ++ x :: r1).take n = p ++ (x :: r1).take (n - p.length) := by
+          rw [List.take_append]; simp [List.take_of_length_le (Nat.le_of_lt hn)]
+        have t2 : (p ++ y :: r2).take n = p ++ (y :: r2).take (n - p.length) := by
+          rw [List.take_append]; simp [List.take_of_length_le (Nat.le_of_lt hn)]
+        rw [t1, t2] at ht
+        have := List.append_cancel_left ht
+        obtain ⟨j, hj⟩ : ∃ j, n - p.length = j + 1 := ⟨n - p.length - 1, by omega⟩
+        rw [hj, List.take_succ_cons, List.take_succ_cons] at this
+        exact absurd (List.cons.inj this).1 hxy
+    · have hn' : n ≤ p.length := by omega
+      refine ⟨0, ?_, ?_⟩
+      · cases n with
+        | zero => rfl
+        | succ k =>
+          have hk : k < p.length := by omega
+          have hsplit : p = p.take k ++ p[k] :: p.drop (k + 1) := by
+            rw [List.getElem_cons_drop, List.take_append_drop]
+          have hp3 : p.take k ++ [p[k]] ++ p.drop (k + 1) = p := by
+            rw [List.append_assoc, List.singleton_append]; exact hsplit.symm
+          have a1 : Holds m s1 (p.take k ++ [p[k]]) := by
+            rw [show p ++ x :: r1 = (p.take k ++ [p[k]]) ++ (p.drop (k + 1) ++ x :: r1) by
+              rw [← List.append_assoc, hp3], holds_append] at g1
+            exact g1.1
+          have a2 : Holds m s2 (p.take k ++ [p[k]]) := by
+            rw [show p ++ y :: r2 = (p.take k ++ [p[k]]) ++ (p.drop (k + 1) ++ y :: r2) by
+              rw [← List.append_assoc, hp3], holds_append] at g2
+            exact g2.1
+          have := strncmp_equal_prefix m s1 s2 (p.take k) p[k] a1 a2 (fun e => hp (List.mem_of_mem_take e))
+          simpa [List.length_take, Nat.min_eq_left (Nat.le_of_lt hk)] using this
+      · have t1 : (p ++ x :: r1).take n = p.take n := by
+          rw [List.take_append]; simp [Nat.sub_eq_zero_of_le hn']
+        have t2 : (p ++ y :: r2).take n = p.take n := by
+          rw [List.take_append]; simp [Nat.sub_eq_zero_of_le hn']
+        simp [t1, t2]
+
+/-- strcasecmp is TOTAL on two C strings: no fault, and 0 exactly when the strings agree after the
+"C"-locale tolower -/
+theorem strcasecmp_total (m : Mem) (s1 s2 : Nat) (l1 l2 : List Byte) (fuel : Nat) (h1 : CStr m s1 l1)
+    (h2 : CStr m s2 l2) (hf : l1.length < fuel) :
+    ∃ r, strcasecmp m s1 s2 fuel = some r ∧ (r = 0 ↔ l1.map lowerB = l2.map lowerB) := by
+  rcases first_diff_cstr_lower l1 l2 h1.2 h2.2 with e | ⟨p1, p2, x, y, r1, r2, e1, e2, hp, hxy, h0⟩
+  · exact ⟨0, strcasecmp_equal m s1 s2 l1 l2 fuel h1 h2 e hf, by simp [e]⟩
+  · have g1 : Holds m s1 (p1 ++ [x]) := by
+      have := h1.1; rw [e1, show p1 ++ x :: r1 = (p1 ++ [x]) ++ r1 by simp, holds_append] at this; exact this.1
+    have g2 : Holds m s2 (p2 ++ [y]) := by
+      have := h2.1; rw [e2, show p2 ++ y :: r2 = (p2 ++ [y]) ++ r2 by simp, holds_append] at this; exact this.1
+    have hpl : p1.length ≤ l1.length := by
+      have := congrArg List.length e1; simp at this; omega
+    refine ⟨_, strcasecmp_first_difference m s1 s2 p1 p2 x y fuel g1 g2 hp h0 hxy (by omega), ?_⟩
+    have hnz : ucInt (lowerB x) - ucInt (lowerB y) ≠ 0 := fun h0' => hxy ((ucInt_sub_sign _ _).2.mp h0')
+    constructor
+    · intro h; exact absurd h hnz
+    · intro hmap
+      have : (l1 ++ [0#8]).map lowerB = (l2 ++ [0#8]).map lowerB := by simp [hmap]
+      rw [e1, e2, List.map_append, List.map_append, hp, List.map_cons, List.map_cons] at this
+      exact absurd (List.cons.inj (List.append_cancel_left this)).1 hxy
+
+/-! closed forms: for EVERY pair of C strings the result is a `takeWhile` of the list -/
+
+/-- strspn in closed form, for EVERY pair of C strings: the length of the longest prefix made of bytes of the set -/
+theorem strspn_closed (m : Mem) (s accept : Nat) (A l : List Byte) (fuel : Nat)
+    (hA : CStr m accept A) (h : CStr m s l) (hf : A.length < fuel) (hg : l.length < fuel) :
+    strspn m s accept fuel = some (l.takeWhile (fun x => decide (x ∈ A))).length := by
+  obtain ⟨e, hq, hr⟩ := span_spec (fun x => decide (x ∈ A)) l
+  have hq' : ∀ y ∈ l.takeWhile (fun x => decide (x ∈ A)), y ∈ A := fun y hy => by simpa using hq y hy
+  generalize l.takeWhile (fun x => decide (x ∈ A)) = q at *
+  have hlen : q.length ≤ l.length := by have := congrArg List.length e; simp at this; omega
+  have h0 : 0#8 ∉ q := fun e0 => h.2 (by rw [e]; exact List.mem_append_left _ e0)
+  cases hd : l.dropWhile (fun x => decide (x ∈ A)) with
+  | nil =>
+    rw [hd, List.append_nil] at e; subst e
+    exact strspn_spec m s accept A l 0#8 fuel hA h.1 h0 hq' (Or.inl rfl) hf hg
+  | cons x r =>
+    have hx : x ∉ A := by simpa using hr x r hd
+    rw [hd] at e
+    have g : Holds m s (q ++ [x]) := by
+      have := h.1
+      rw [e, show q ++ x :: r ++ [0#8] = (q ++ [x]) ++ (r ++ [0#8]) by simp, holds_append] at this
+      exact this.1
+    exact strspn_spec m s accept A q x fuel hA g h0 hq' (Or.inr hx) hf (by omega)
+
+/-- strcspn in closed form: the length of the longest prefix free of bytes of the set -/
+theorem strcspn_closed (m : Mem) (s reject : Nat) (R l : List Byte) (fuel : Nat)
+    (hR : CStr m reject R) (h : CStr m s l) (hf : R.length < fuel) (hg : l.length < fuel) :
+    strcspn m s reject fuel = some (l.takeWhile (fun x => decide (x ∉ R))).length := by
+  obtain ⟨e, hq, hr⟩ := span_spec (fun x => decide (x ∉ R)) l
+  have hq' : ∀ y ∈ l.takeWhile (fun x => decide (x ∉ R)), y ∉ R := fun y hy => by simpa using hq y hy
+  generalize l.takeWhile (fun x => decide (x ∉ R)) = q at *
+  have hlen : q.length ≤ l.length := by have := congrArg List.length e; simp at this; omega
+  have h0 : 0#8 ∉ q := fun e0 => h.2 (by rw [e]; exact List.mem_append_left _ e0)
+  cases hd : l.dropWhile (fun x => decide (x ∉ R)) with
+  | nil =>
+    rw [hd, List.append_nil] at e; subst e
+    exact strcspn_spec m s reject R l 0#8 fuel hR h.1 h0 hq' (Or.inl rfl) hf hg
+  | cons x r =>
+    have hx : x ∈ R := by simpa using hr x r hd
+    rw [hd] at e
+    have g : Holds m s (q ++ [x]) := by
+      have := h.1
+      rw [e, show q ++ x :: r ++ [0#8] = (q ++ [x]) ++ (r ++ [0#8]) by simp, holds_append] at this
+      exact this.1
+    exact strcspn_spec m s reject R q x fuel hR g h0 hq' (Or.inr hx) hf (by omega)
+
+/-- strpbrk in closed form: NULL when no byte of the string is in the set, otherwise the pointer
+behind the longest prefix free of the set -/
+theorem strpbrk_closed (m : Mem) (s1 s2 : Nat) (A l : List Byte) (fuel : Nat)
+    (hA : CStr m s2 A) (h : CStr m s1 l) (hf : A.length < fuel) (hg : l.length < fuel) :
+    strpbrk m s1 s2 fuel = some (if (l.dropWhile (fun x => decide (x ∉ A))).isEmpty then none
+      else some (s1 + (l.takeWhile (fun x => decide (x ∉ A))).length)) := by
+  obtain ⟨e, hq, hr⟩ := span_spec (fun x => decide (x ∉ A)) l
+  have hq' : ∀ y ∈ l.takeWhile (fun x => decide (x ∉ A)), y ∉ A := fun y hy => by simpa using hq y hy
+  generalize l.takeWhile (fun x => decide (x ∉ A)) = q at *
+  have hlen : q.length ≤ l.length := by have := congrArg List.length e; simp at this; omega
+  have h0 : 0#8 ∉ q := fun e0 => h.2 (by rw [e]; exact List.mem_append_left _ e0)
+  cases hd : l.dropWhile (fun x => decide (x ∉ A)) with
+  | nil =>
+    rw [hd, List.append_nil] at e; subst e
+    simpa using strpbrk_absent m s1 s2 A l fuel hA h hq' hf hg
+  | cons x r =>
+    have hx : x ∈ A := by simpa using hr x r hd
+    rw [hd] at e
+    have g : Holds m s1 (q ++ [x]) := by
+      have := h.1
+      rw [e, show q ++ x :: r ++ [0#8] = (q ++ [x]) ++ (r ++ [0#8]) by simp, holds_append] at this
+      exact this.1
+    simpa using strpbrk_found m s1 s2 A q x fuel hA g h0 hq' hx hf (by omega)
+/-- strstr with the first matching position known -/
+theorem strstr_first_match (m : Mem) (haystack needle : Nat) (nd l : List Byte) (fuel k : Nat)
+    (hH : CStr m haystack l) (hN : CStr m needle nd) (hf : l.length < fuel)
+    (hk : k ≤ l.length) (hm : nd <+: l.drop k) (hfirst : ∀ i, i < k → ¬ nd <+: l.drop i) :
+    strstr m haystack needle fuel = some (some (haystack + k)) := by
+  cases nd with
+  | nil =>
+    have : k = 0 := by
+      cases k with
+      | zero => rfl
+      | succ j => exact absurd (List.nil_prefix) (hfirst 0 (by omega))
+    subst this
+    simpa using strstr_empty_needle m haystack needle fuel (cstr_nil.mp hN)
+  | cons b nd' =>
+    obtain ⟨t, ht⟩ := hm
+    have el : l = l.take k ++ (b :: nd') ++ t := by
+      rw [List.append_assoc, ht, List.take_append_drop]
+    have hpl : (l.take k).length = k := by simp [Nat.min_eq_left hk]
+    have := strstr_found m haystack needle (b :: nd') (l.take k) t fuel (by rw [← el]; exact hH) hN (by simp)
+      (by rw [← el, hpl]; exact hfirst) (by rw [← el]; exact hf)
+    rw [hpl] at this; exact this
+
+/-- strstr is TOTAL on two C strings (the needle may be empty, longer than the haystack, or match only
+at the very end): NULL exactly when the needle is a prefix of no suffix of the haystack, otherwise the
+pointer to the FIRST position where it is -/
+theorem strstr_total (m : Mem) (haystack needle : Nat) (nd l : List Byte) (fuel : Nat)
+    (hH : CStr m haystack l) (hN : CStr m needle nd) (hf : l.length < fuel) :
+    ∃ r, strstr m haystack needle fuel = some r ∧
+      (r = none ↔ ∀ i, i ≤ l.length → ¬ nd <+: l.drop i) ∧
+      (∀ k, r = some (haystack + k) → k ≤ l.length → (nd <+: l.drop k ∧ ∀ i, i < k → ¬ nd <+: l.drop i)) := by
+  by_cases hex : ∃ k, k ≤ l.length ∧ nd <+: l.drop k
+  · obtain ⟨k0, hk0⟩ := hex
+    obtain ⟨k, ⟨hk, hm⟩, hmin⟩ := exists_least (fun k => k ≤ l.length ∧ nd <+: l.drop k) k0 hk0
+    have hfirst : ∀ i, i < k → ¬ nd <+: l.drop i := fun i hi hp => hmin i hi ⟨by omega, hp⟩
+    refine ⟨_, strstr_first_match m haystack needle nd l fuel k hH hN hf hk hm hfirst, ?_, ?_⟩
+    · constructor
+      · intro h; simp at h
+      · intro h; exact absurd hm (h k hk)
+    · intro k' hk' _
+      have : k' = k := by simp at hk'; omega
+      subst this; exact ⟨hm, hfirst⟩
+  · have hno : ∀ i, i ≤ l.length → ¬ nd <+: l.drop i := fun i hi hp => hex ⟨i, hi, hp⟩
+    have hne : nd ≠ [] := fun e => hno 0 (by omega) (by rw [e]; exact List.nil_prefix)
+    refine ⟨none, strstr_absent m haystack needle nd l fuel hH hN hne (fun i hi => hno i (by omega)) hf, ?_, ?_⟩
+    · exact ⟨fun _ => hno, fun _ => rfl⟩
+    · intro k hk; simp at hk
+
+/-! ### strtok / strtok_r HISTORIES (round 3; audit item 4).  A sequence of calls on one
+string — the first with the string, the later ones with NULL, call i with its
+own delimiter string `ds[i]` (contents `Ds[i]`; the sets may change from call
+to call) — returns exactly what the list-level reference automaton
+`tokHistory` (Spec.lean: `takeWhile`/`dropWhile` only) prescribes: the tokens in
+order, each as a pointer into the string, then NULL for ever; the save pointer
+is threaded from call to call as `*saveptr` is.  Nothing outside the string's
+characters is modified (the terminator is not rewritten either), and every
+call succeeds when only the string and the delimiter strings are mapped.
+`strtok` is `strtok_r` on its static pointer (`rfl` below), so the same holds
+for it with the static as the threaded state. -/
+
+/-- the general form of the history theorem (any state of the save pointer) -/
+theorem strtokCalls_history (fuel lo hi : Nat) : ∀ (Ds : List (List Byte)) (ds : List Nat) (m : Mem)
+    (str save : Option Nat) (pos : Nat) (l : List Byte),
+    tokStart str save = some pos → CStr m pos l → lo ≤ pos → pos + l.length + 1 ≤ hi → l.length < fuel →
+    DelimsOk m fuel lo hi ds Ds →
+    ∃ m' sv, strtokCalls m fuel ds str save =
+        some (m', sv, (tokHistory Ds l).map (Option.map (pos + ·))) ∧
+      SameOutside m m' pos l.length := by
+  intro Ds
+  induction Ds with
+  | nil =>
+    intro ds m str save pos l _ _ _ _ _ hD
+    cases ds with
+    | cons _ _ => exact hD.elim
+    | nil =>
+    exact ⟨m, save, by simp [strtokCalls, tokHistory], SameOutside.refl _ _ _⟩
+  | cons D Ds ih =>
+    intro ds m str save pos l hstart hl hlo hhi hfl hD
+    cases ds with
+    | nil => exact hD.elim
+    | cons d ds' =>
+    obtain ⟨⟨hDc, hDf, hDo⟩, hDs⟩ := hD
+    obtain ⟨e1, hq, hr⟩ := span_spec (fun x => decide (x ∈ D)) l
+    have hq' : ∀ y ∈ l.takeWhile (fun x => decide (x ∈ D)), y ∈ D := fun y hy => by simpa using hq y hy
+    cases hdr : l.dropWhile (fun x => decide (x ∈ D)) with
+    | nil =>
+      -- only delimiters left
+      rw [hdr, List.append_nil] at e1
+      have hall : ∀ y ∈ l, y ∈ D := by rw [e1]; exact hq'
+      have hcall := strtok_r_no_token m str save pos d D l fuel hstart hDc hl hall hDf hfl
+      have hnil : CStr m (pos + l.length) [] := by
+        have := cstr_suffix (p := l) (r := []) (by simpa using hl); exact this
+      obtain ⟨m', sv, e, ho⟩ := ih ds' m none (some (pos + l.length)) (pos + l.length) [] rfl hnil (by omega)
+        (by simp; omega) (by simp; omega) hDs
+      refine ⟨m', sv, ?_, ?_⟩
+      · simp only [strtokCalls, hcall, bind, Option.bind, e, tokHistory, tokRef, hdr, pure]
+        simp [List.map_map, Function.comp_def, Option.map_map, Nat.add_assoc]
+      · intro j hj; exact ho j (by simp)
+    | cons x r =>
+      have hxD : x ∉ D := by simpa using hr x r hdr
+      obtain ⟨e2, ht, hr2⟩ := span_spec (fun y => decide (y ∉ D)) (x :: r)
+      have ht' : ∀ y ∈ (x :: r).takeWhile (fun y => decide (y ∉ D)), y ∉ D := fun y hy => by simpa using ht y hy
+      have htne : (x :: r).takeWhile (fun y => decide (y ∉ D)) ≠ [] := by
+        simp [List.takeWhile_cons, hxD]
+      generalize hq0 : l.takeWhile (fun x => decide (x ∈ D)) = q at *
+      generalize ht0 : (x :: r).takeWhile (fun y => decide (y ∉ D)) = t at *
+      rw [hdr] at e1
+      cases hd2 : (x :: r).dropWhile (fun y => decide (y ∉ D)) with
+      | nil =>
+        rw [hd2, List.append_nil] at e2
+        have el : l = q ++ t := by rw [e1, e2]
+        subst el
+        have hcall := strtok_r_last_token m str save pos d D q t fuel hstart hDc hl hq' ht' htne hDf hfl
+        have hnil : CStr m (pos + q.length + t.length) [] := by
+          have := cstr_suffix (p := q ++ t) (r := []) (by simpa using hl)
+          simpa [Nat.add_assoc] using this
+        obtain ⟨m', sv, e, ho⟩ := ih ds' m none (some (pos + q.length + t.length)) (pos + q.length + t.length) []
+          rfl hnil (by omega) (by simp at hhi ⊢; omega) (by simp; omega) hDs
+        refine ⟨m', sv, ?_, ?_⟩
+        · simp only [strtokCalls, hcall, bind, Option.bind, e, tokHistory, tokRef, hdr, hq0, ht0, hd2, pure]
+          simp [List.map_map, Function.comp_def, Option.map_map, Nat.add_assoc]
+        · intro j hj; exact ho j (by simp)
+      | cons dl r3 =>
+        have hdD : dl ∈ D := by simpa using hr2 dl r3 hd2
+        rw [hd2] at e2
+        have el : l = q ++ t ++ dl :: r3 := by rw [e1, e2, List.append_assoc]
+        subst el
+        obtain ⟨m1, hcall, htok, ho1⟩ := strtok_r_token m str save pos d D q t r3 dl fuel hstart hDc hl hq' ht' htne hdD hDf hfl
+        have hrest : CStr m1 (pos + q.length + t.length + 1) r3 := by
+          have := cstr_suffix (p := q ++ t ++ [dl]) (r := r3) (by simpa using hl)
+          have := cstr_of_sameOutside this ho1 (Or.inr (by simp; omega))
+          simpa [Nat.add_assoc] using this
+        simp only [List.length_append, List.length_cons] at hhi hfl
+        obtain ⟨m', sv, e, ho⟩ := ih ds' m1 none (some (pos + q.length + t.length + 1)) (pos + q.length + t.length + 1) r3
+          rfl hrest (by omega) (by omega) (by omega) (hDs.transport ho1 (by omega))
+        refine ⟨m', sv, ?_, ?_⟩
+        · simp only [strtokCalls, hcall, bind, Option.bind, e, tokHistory, tokRef, hdr, hq0, ht0, hd2, pure]
+          simp [List.map_map, Function.comp_def, Option.map_map, Nat.add_assoc]
+        · intro j hj
+          simp only [List.length_append, List.length_cons] at hj
+          rw [ho j (by omega), ho1 j (by omega)]
+
+theorem strtok_r_history (m : Mem) (start fuel : Nat) (l : List Byte) (ds : List Nat) (Ds : List (List Byte))
+    (save : Option Nat) (h : CStr m start l) (hf : l.length < fuel)
+    (hD : DelimsOk m fuel start (start + l.length + 1) ds Ds) :
+    ∃ m' sv, strtokCalls m fuel ds (some start) save =
+        some (m', sv, (tokHistory Ds l).map (Option.map (start + ·))) ∧
+      SameOutside m m' start l.length :=
+  strtokCalls_history fuel start (start + l.length + 1) Ds ds m (some start) save start l rfl h
+    (Nat.le_refl _) (Nat.le_refl _) hf hD
+
+/-- a history that is CONTINUED (all calls with NULL) from a save pointer that rests at `pos` -/
+theorem strtok_r_history_continued (m : Mem) (pos fuel lo hi : Nat) (l : List Byte) (ds : List Nat)
+    (Ds : List (List Byte)) (h : CStr m pos l) (hlo : lo ≤ pos) (hhi : pos + l.length + 1 ≤ hi)
+    (hf : l.length < fuel) (hD : DelimsOk m fuel lo hi ds Ds) :
+    ∃ m' sv, strtokCalls m fuel ds none (some pos) =
+        some (m', sv, (tokHistory Ds l).map (Option.map (pos + ·))) ∧
+      SameOutside m m' pos l.length :=
+  strtokCalls_history fuel lo hi Ds ds m none (some pos) pos l rfl h hlo hhi hf hD
+
+/-- strtok's static is the threaded save pointer: the two functions are the same function -/
+theorem strtok_is_strtok_r : @strtok = @strtok_r := rfl
+
+/-- the reference automaton on "a,,b;c" with the delimiter sets ",", ",", ";", ";": tokens "a", "b;c"
+(the second call still splits at ','), then nothing is left for ';' -/
+example : tokHistory [[44#8], [44#8], [59#8], [59#8]] [97#8, 44#8, 44#8, 98#8, 59#8, 99#8] =
+    [some 0, some 3, none, none] := by decide
+/-- ... and with the set changed to ";" for the second call: "a", then ",b" (the commas are no delimiters now), "c" -/
+example : tokHistory [[44#8], [59#8], [59#8], [59#8]] [97#8, 44#8, 44#8, 98#8, 59#8, 99#8] =
+    [some 0, some 2, some 5, none] := by decide
+/-- the model on the same history (string at 8, "," at 32, ";" at 40): same pointers, and the
+hypotheses of `strtok_r_history` hold for this memory -/
+example : (strtokCalls (ofBufs [(8, [97#8, 44#8, 44#8, 98#8, 59#8, 99#8, 0#8]), (32, [44#8, 0#8]), (40, [59#8, 0#8])])
+    20 [32, 40, 40, 40] (some 8) none).map (·.2.2) = some [some 8, some 10, some 13, none] := by decide
+
+/-- strndup: allocation failure ⇒ NULL, memory untouched (audit item 5) -/
+theorem strndup_nomem (malloc : Alloc) (m : Mem) (s : Nat) (p : List Byte) (size : Nat)
+    (h : Holds m s p) (h0 : 0#8 ∉ p) (hsz : size = p.length ∨ (p.length < size ∧ m (s + p.length) = some 0#8))
+    (hal : malloc m (p.length + 1) = none) :
+    strndup malloc m s size = some (m, none) := by
+  have e1 : strnlen m s size = some p.length := by
+    rcases hsz with rfl | ⟨hlt, hz⟩
+    · simpa [strnlen] using strnlenLoop_long m p s p.length 0 h h0 (Nat.le_refl _)
+    · have hc : CStr m s p := by
+        refine ⟨?_, h0⟩
+        rw [holds_append]; exact ⟨h, by simp [holds_cons, Holds.nil, hz]⟩
+      have := strnlenLoop_cstr m p s size 0 hc
+      simpa [strnlen, Nat.min_eq_left (Nat.le_of_lt hlt)] using this
+  simp [strndup, e1, hal]
+
+/-! ### ctype (round 3): igris/util/ctype.h and the libc wrappers of compat/libc/include/ctype.h
+  For EVERY argument ISO C 7.4 allows (EOF and the 256 values of `unsigned char`:
+  `ctypeArg i`, `i : Fin 257`) each classification function is non-zero exactly
+  on the members of its "C"-locale class (class table `cLocaleTable` in
+  Spec.lean, written independently of the range tests of the code) and each
+  conversion moves exactly the letters of the other case.  All 257 cases are
+  evaluated by the kernel.  `iscntrl`, `isgraph`, `ispunct` are commented out in
+  the header (not provided), so there is nothing to state for them. -/
+
+theorem isupper_c_locale : ∀ i : Fin 257, (isupperI (ctypeArg i) != 0) = inClass (ctypeArg i) CL_U := by decide +kernel
+theorem islower_c_locale : ∀ i : Fin 257, (islowerI (ctypeArg i) != 0) = inClass (ctypeArg i) CL_L := by decide +kernel
+theorem isdigit_c_locale : ∀ i : Fin 257, (isdigitI (ctypeArg i) != 0) = inClass (ctypeArg i) CL_D := by decide +kernel
+theorem isalpha_c_locale : ∀ i : Fin 257, (isalphaI (ctypeArg i) != 0) = inClass (ctypeArg i) (CL_U ||| CL_L) := by decide +kernel
+theorem isalnum_c_locale : ∀ i : Fin 257, (isalnumI (ctypeArg i) != 0) = inClass (ctypeArg i) (CL_U ||| CL_L ||| CL_D) := by decide +kernel
+theorem isxdigit_c_locale : ∀ i : Fin 257, (isxdigitI (ctypeArg i) != 0) = inClass (ctypeArg i) (CL_D ||| CL_X) := by decide +kernel
+theorem isspace_c_locale : ∀ i : Fin 257, (isspaceI (ctypeArg i) != 0) = inClass (ctypeArg i) CL_S := by decide +kernel
+theorem isblank_c_locale : ∀ i : Fin 257, (isblankI (ctypeArg i) != 0) = inClass (ctypeArg i) CL_B := by decide +kernel
+/-- printing characters: letters, digits, punctuation and the space character -/
+theorem isprint_c_locale : ∀ i : Fin 257, (isprintI (ctypeArg i) != 0) =
+    inClass (ctypeArg i) (CL_U ||| CL_L ||| CL_D ||| CL_P ||| CL_SP) := by decide +kernel
+/-- tolower: an upper-case letter goes to the letter 32 above it; everything else (EOF included) is returned unchanged -/
+theorem tolower_c_locale : ∀ i : Fin 257, tolowerC (ctypeArg i) =
+    if inClass (ctypeArg i) CL_U then ctypeArg i + 32 else ctypeArg i := by decide +kernel
+theorem toupper_c_locale : ∀ i : Fin 257, toupperC (ctypeArg i) =
+    if inClass (ctypeArg i) CL_L then ctypeArg i - 32 else ctypeArg i := by decide +kernel
+/-- toascii keeps the low seven bits (EOF ↦ 127) -/
+theorem toascii_c_locale : ∀ i : Fin 257, toasciiI (ctypeArg i) = ctypeArg i % 128 := by decide +kernel
+/-- every classification function returns exactly 0 or 1 (a C truth value), for every `int` -/
+theorem ctype_results_are_0_or_1 (c : Int) :
+    ∀ f ∈ [isupperI, islowerI, isdigitI, isalphaI, isalnumI, isxdigitI, isspaceI, isblankI, isprintI, isasciiI],
+      f c = 0 ∨ f c = 1 := by
+  have ite01 : ∀ (p : Prop) [Decidable p], (if p then (1 : Int) else 0) = 0 ∨ (if p then (1 : Int) else 0) = 1 := by
+    intro p _; split <;> simp
+  intro f hf
+  simp only [List.mem_cons, List.not_mem_nil, or_false] at hf
+  rcases hf with rfl | rfl | rfl | rfl | rfl | rfl | rfl | rfl | rfl | rfl <;> exact ite01 _
+/-- for EVERY `int` outside 0..127 (not only the 257 ISO arguments): no class, conversions are the identity -/
+theorem ctype_outside_ascii (c : Int) (h : c < 0 ∨ 127 < c) :
+    isupperI c = 0 ∧ islowerI c = 0 ∧ isdigitI c = 0 ∧ isalphaI c = 0 ∧ isalnumI c = 0 ∧ isxdigitI c = 0 ∧
+    isspaceI c = 0 ∧ isblankI c = 0 ∧ isprintI c = 0 ∧ tolowerC c = c ∧ toupperC c = c := by
+  have e1 : isupperI c = 0 := by unfold isupperI; rw [if_neg (by omega)]
+  have e2 : islowerI c = 0 := by unfold islowerI; rw [if_neg (by omega)]
+  have e3 : isdigitI c = 0 := by unfold isdigitI; rw [if_neg (by omega)]
+  have e4 : isalphaI c = 0 := by unfold isalphaI; rw [if_neg (by omega)]
+  have e5 : isxdigitHelperI c = 0 := by unfold isxdigitHelperI; rw [if_neg (by omega)]
+  refine ⟨e1, e2, e3, e4, ?_, ?_, ?_, ?_, ?_, ?_, ?_⟩
+  · simp [isalnumI, e3, e4]
+  · simp [isxdigitI, e3, e5]
+  · unfold isspaceI; rw [if_neg (by omega)]
+  · unfold isblankI; rw [if_neg (by omega)]
+  · unfold isprintI; rw [if_neg (by rw [e3, e4]; omega)]
+  · simp [tolowerC, e1]
+  · simp [toupperC, e2]
+/-- the two spellings of the conversions agree for every `int`: `tolowerI/toupperI` (range test inlined; used by
+strcasecmp & co.) = `tolowerC/toupperC` (through the predicate, as igris/util/ctype.h writes them) -/
+theorem tolower_twins_agree (c : Int) : tolowerC c = tolowerI c ∧ toupperC c = toupperI c := by
+  unfold tolowerC tolowerI toupperC toupperI isupperI islowerI
+  constructor <;> split <;> split <;> simp_all <;> omega
+/-- isascii (POSIX: defined on ALL integer values, true exactly for 0..127) — for every 32-bit `int`
+(`fix: isascii converts to unsigned`) -/
+theorem isascii_spec (c : Int) (hc : -2147483648 ≤ c ∧ c ≤ 2147483647) :
+    isasciiI c = if 0 ≤ c ∧ c ≤ 127 then 1 else 0 := by
+  unfold isasciiI
+  rw [BitVec.toNat_ofInt]
+  by_cases h : 0 ≤ c ∧ c ≤ 127
+  · rw [if_pos h, if_pos (by omega)]
+  · rw [if_neg h, if_neg (by omega)]
+/-- historical: `((unsigned char)(c)) <= 0x7f` called 321 (= 256 + 'A') an ASCII character -/
+theorem isasciiOrig_witness : isasciiOrig 321 = 1 := by decide
+
+/-- the class table is not degenerate: 26 + 26 letters, 10 digits, 6 white-space characters, 95 printing ones -/
+example : ((List.range 128).filter fun c => inClass (c : Nat) CL_U).length = 26 ∧
+    ((List.range 128).filter fun c => inClass (c : Nat) CL_L).length = 26 ∧
+    ((List.range 128).filter fun c => inClass (c : Nat) CL_D).length = 10 ∧
+    ((List.range 128).filter fun c => inClass (c : Nat) CL_S).length = 6 ∧
+    ((List.range 128).filter fun c => inClass (c : Nat) (CL_U ||| CL_L ||| CL_D ||| CL_P ||| CL_SP)).length = 95 := by decide +kernel
+example : ctypeArg 0 = -1 ∧ ctypeArg 256 = 255 := by decide
+
+/-! composite hypothesis sets are satisfiable (audit item 6): concrete memories on which the
+conclusions of the theorems are observed on the model -/
+
+/-- `strstr_found` / `strstr_total`: "xab" at 8, needle "ab" at 32 — first match at offset 1, the very end -/
+example : strstr (ofBufs [(8, [120#8, 97#8, 98#8, 0#8]), (32, [97#8, 98#8, 0#8])]) 8 32 10 = some (some 9) := by decide
+/-- needle longer than the haystack -/
+example : strstr (ofBufs [(8, [97#8, 0#8]), (32, [97#8, 98#8, 0#8])]) 8 32 10 = some none := by decide
+/-- `strncat_spec` with n = 2 < strlen(s2): two characters and a terminator are appended, the byte behind them survives -/
+example : (strncat (ofBufs [(8, [97#8, 0#8, 7#8, 7#8, 7#8]), (32, [98#8, 99#8, 100#8, 0#8])]) 8 32 2 10).map
+    (fun r => (r.2, readOut r.1 8 5)) = some (8, some [97#8, 98#8, 99#8, 0#8, 7#8]) := by decide
+/-- `strncmp_total`: "ab" vs "ac" agree on the first character only -/
+example : strncmp (ofBufs [(8, [97#8, 98#8, 0#8]), (32, [97#8, 99#8, 0#8])]) 8 32 1 = some 0 ∧
+    (strncmp (ofBufs [(8, [97#8, 98#8, 0#8]), (32, [97#8, 99#8, 0#8])]) 8 32 2) = some (-1) := by decide
+/-- `memcmp_total` on bytes >= 0x80: 0x80 > 0x7f as unsigned char -/
+example : memcmp (ofBufs [(8, [0x80#8]), (32, [0x7f#8])]) 8 32 1 = some 1 := by decide
+/-- `strspn_closed` / `strcspn_closed` -/
+example : strspn (ofBufs [(8, [97#8, 98#8, 44#8, 0#8]), (32, [98#8, 97#8, 0#8])]) 8 32 10 = some 2 ∧
+    strcspn (ofBufs [(8, [97#8, 98#8, 44#8, 0#8]), (32, [44#8, 0#8])]) 8 32 10 = some 2 := by decide
+
 /-! ### non-vacuity: the hypotheses used above are satisfiable (concrete memories) -/
 
 example : CStr exMem 8 [97#8, 98#8, 99#8] := by
